@@ -343,6 +343,96 @@ theorem pair_error_member_positive (hb : Bool) (pop : List Ind) (a b : Sel) (hσ
   have := select_error_documented hb pop _ hσ _ h
   cases this with | pairA hw _ => exact hw
 
+/-! ### Totality -/
+
+private theorem ex_bind {m : Rand (Except SelErr Nat)} {f : SelErr → SelErr}
+    (h : ∃ r, Reach m r) : ∃ r, Reach (Rand.bind m fun r => Pure.pure (mapErr f r)) r := by
+  obtain ⟨r, hr⟩ := h
+  exact ⟨_, reach_bind.mpr ⟨r, hr, .pure _⟩⟩
+
+private theorem ex_ask {α : Type} {p : Prim} {k : Ans → Rand α} (ans : Ans) (hv : p.valid ans)
+    (h : ∃ r, Reach (k ans) r) : ∃ r, Reach (.ask p k) r := by
+  obtain ⟨r, hr⟩ := h; exact ⟨r, .ask hv hr⟩
+
+private theorem ex_pure {α : Type} (a : α) : ∃ r, Reach (Pure.pure a : Rand α) r := ⟨a, .pure a⟩
+
+mutual
+/-- **Totality**: every selector term has, on every population, a run with valid random answers
+    that ends in a result — `Reach` is never vacuous, the model has no stuck or panicking state. -/
+theorem select_total (hb : Bool) (pop : List Ind) : ∀ σ : Sel, ∃ r, Reach (σ.select hb pop) r
+  | .best => by simp only [Sel.select]; split <;> exact ex_pure _
+  | .worst => by simp only [Sel.select]; split <;> exact ex_pure _
+  | .random => by
+    simp only [Sel.select]
+    by_cases h : pop.length = 0
+    · exact ex_ask .none (by simpa [Prim.valid] using h) (ex_pure _)
+    · exact ex_ask (.nat 0) (by simp only [Prim.valid]; omega) (ex_pure _)
+  | .tournament k => by
+    simp only [Sel.select]
+    split
+    · exact ex_pure _
+    · rename_i h
+      refine ex_ask (.idxs (List.range k)) ?_ ?_
+      · simp only [Prim.valid, List.length_range]
+        exact ⟨by omega, List.nodup_range, fun i hi => by have := List.mem_range.mp hi; omega⟩
+      · simp only; split <;> exact ex_pure _
+  | .lexicase n => by
+    simp only [Sel.select]
+    refine ex_ask (.idxs (List.range n)) ?_ ?_
+    · simp only [Prim.valid, List.length_range]
+      exact ⟨trivial, List.nodup_range, fun i hi => List.mem_range.mp hi⟩
+    · simp only
+      split
+      · exact ex_pure _
+      · rename_i cands _
+        refine ex_ask (.idxs (List.range cands.length)) ?_ ?_
+        · simp only [Prim.valid, List.length_range]
+          exact ⟨trivial, List.nodup_range, fun i hi => List.mem_range.mp hi⟩
+        · simp only
+          split
+          · split <;> exact ex_pure _
+          · exact ex_pure _
+  | .probe i => by simp only [Sel.select]; split <;> exact ex_pure _
+  | .weighted s w => by
+    simp only [Sel.select]
+    split
+    · exact ex_pure _
+    · exact ex_bind (select_total hb pop s)
+  | .pair a b => by
+    simp only [Sel.select]
+    split
+    · exact ex_pure _
+    · rename_i hz
+      by_cases ha : 0 < a.weight
+      · exact ex_ask (.bool true) (by simp [Prim.valid, ha]) (ex_bind (select_total hb pop a))
+      · exact ex_ask (.bool false) (by simp only [Prim.valid]; exact ⟨by simp, fun _ => by omega⟩) (ex_bind (select_total hb pop b))
+  | .dyn l => by
+    simp only [Sel.select]
+    by_cases hex : ∃ i, ∃ hi : i < l.length, 0 < (l[i]).2
+    · obtain ⟨i, hi, hpos⟩ := hex
+      exact ex_ask (.nat i) (by simp only [Prim.valid]; exact ⟨by simpa using hi, by simpa using hpos⟩) (selectNth_total hb pop l i hi)
+    · refine ex_ask .err ?_ (ex_pure _)
+      simp only [Prim.valid]
+      left
+      rw [List.all_eq_true]
+      intro w hw
+      obtain ⟨⟨s, w'⟩, hm, rfl⟩ := List.mem_map.mp hw
+      obtain ⟨i, hi, hli⟩ := List.getElem_of_mem hm
+      have : ¬ 0 < (l[i]).2 := fun h => hex ⟨i, hi, h⟩
+      rw [hli] at this
+      simp only at this
+      simp; omega
+  | .byRef s => by simp only [Sel.select]; exact select_total hb pop s
+  | .erased s => by simp only [Sel.select]; exact ex_bind (select_total hb pop s)
+
+theorem selectNth_total (hb : Bool) (pop : List Ind) :
+    ∀ (l : List (Sel × Nat)) (i : Nat), i < l.length → ∃ r, Reach (Sel.selectNth hb pop l i) r
+  | [], _, hi => by simp at hi
+  | (s, _) :: _, 0, _ => by simp only [Sel.selectNth]; exact ex_bind (select_total hb pop s)
+  | _ :: rest, i + 1, hi => by
+    simp only [Sel.selectNth]; exact selectNth_total hb pop rest i (by simpa using hi)
+end
+
 /-! ### Non-vacuity -/
 
 /-- a nested term mixing every constructor is well-formed … -/
